@@ -176,6 +176,19 @@ theorem renamed_unreachable (v0 : View) (f : List Port) (h : List Notif) (key : 
   have hn := (ports_by_attr v0 f h key).2.1.mpr hnone
   exact ⟨hn, by simp only [containsC]; rw [hn]; rfl⟩
 
+/-- **mask_on_readd_irrelevant** — `_update` discards the port's number from `_masks` (of_01.py:629), but nothing can depend on
+it: a variant that keeps the mask yields, after every history, the same lookup by number and the same set of keys (and so
+the same values, items, length, membership and lookups by name / address, which are computed from those two).  The mask of a
+number is consulted only when `_ports` holds no port with that number, and `_forget` sets it again.  (This is why the
+mutation "mask not cleared on re-add" cannot be detected by any check: it does not change behaviour.) -/
+theorem mask_on_readd_irrelevant (v0 : View) (f : List Port) (h : List Notif) (k : Nat) :
+    getNoC (runNotifsKeepMask (featuresReply v0 f) h).chain k = getNoC (runNotifs (featuresReply v0 f) h).chain k ∧
+    (k ∈ keysC (runNotifsKeepMask (featuresReply v0 f) h).chain ↔ k ∈ keysC (runNotifs (featuresReply v0 f) h).chain) := by
+  have h1 := refines_runKeepMask _ _ h (refines_features v0 f) k
+  have h2 := refines_run _ _ h (refines_features v0 f) k
+  refine ⟨by rw [h1, h2], ?_⟩
+  rw [mem_keysC_iff, mem_keysC_iff, h1, h2]
+
 /-! ### D17: the unrepaired lookup (`getItemLegacyC`, the code before `fixes/D17_…diff`) is wrong on a rename -/
 
 def pA : Port := ⟨1, 0x61, 0xa1, 0⟩      -- port 1 "a"
